@@ -25,7 +25,7 @@ META = {
 
 QUICK_CONFIGS = [(1, 1), (1, 2), (2, 1), (2, 3), (4, 2), (4, 256)]
 ALL_CONFIGS = [(n, q) for n in (1, 2, 4) for q in (1, 2, 3, 256)]
-TIMEOUT_MS = 2500
+TIMEOUT_MS = 1800
 
 # ----------------------------------------------------------------------------- programs
 # A program is a DAG of async functions f0..fk-1 (fi only starts fj with j > i, so every body is
@@ -287,13 +287,17 @@ def classify_hang(model_ans, n, q):
     if not m:
         return "hang-unclassified", model_ans[:200]
     queue, lost = int(m.group(1)), int(m.group(5))
-    busy = dict(re.findall(r"(\d+):(\w+(?:\([^)]*\))?)", m.group(6)))
+    busy = dict(re.findall(r"(\d+):(\w+(?:\([^)]*\))?(?:@\w+)?)", m.group(6)))
     workers = [busy.get(str(w), "idle") for w in range(n)]
     if lost:
         return "hang-lost-wakeup", model_ans[:300]
-    sending = [w for w in workers if w.startswith("add(") or (w.startswith("resEnq(") and not w.endswith(",0)"))]
-    stuck = [w for w in workers if w.startswith(("add(", "resEnq(", "awLock(", "resLock("))]
-    if queue >= q and sending and len(stuck) == n:
+    def is_sending(st):
+        return st.startswith("add(") or (st.startswith("resEnq(") and not st.endswith(",0)"))
+    senders = [a for a, st in busy.items() if is_sending(st)]          # pool workers and other goroutines
+    # a worker waiting for a promise mutex counts only if the holder is itself blocked in a send
+    blocked = [w for w in workers
+               if is_sending(w) or (w.startswith(("awLock(", "resLock(")) and w.rsplit("@", 1)[-1] in senders)]
+    if queue >= q and senders and len(blocked) == n:
         return ("deadlock-full-queue",
                 "every pool worker blocked in a send on the full task queue (or waiting for a promise mutex held by "
                 "one that is): " + ",".join(workers) + " queue=%d/%d" % (queue, q))
